@@ -119,6 +119,30 @@ def step (σ : St) (op obs : List String) : St × List Msg :=
     let want := σ.implInForce.getD "-"
     let pf := if id = want then [] else inForceFail σ s!"the status API must serve {want}, observed" id
     (σ, d ++ pf ++ [.tag (if σ.lastFailed then "status:after-rejected" else "status:after-accepted")])
+  | ["reload", cfg, _fault, "slow"], [r, who] =>
+    -- a valid reload whose new dispatcher is held up while loading: an alert posted meanwhile belongs to the new
+    -- configuration alone (the old dispatcher was stopped before the new one subscribed)
+    let (a, ok) := σ.app.reload (E := Unit) σ.steps (.ok cfg) none
+    let d := expectEq "reload.result" (if ok then "ok" else "err") r
+    let want := s!"{cfg}.r0"
+    let pf := if r ≠ "ok" ∨ who = want ∨ who = "posterr" then [] else
+      [Msg.propfail "successful_reload_applies" "two-dispatchers-during-reload"
+        s!"an alert posted while the dispatcher of {cfg} was loading was notified by [{who}], expected [{want}] only: the previous dispatcher was still consuming alerts"]
+    ({ σ with app := a, implInForce := if r = "ok" then some cfg else σ.implInForce, lastFailed := r ≠ "ok", lastFault := "slow" },
+      d ++ pf ++ [.tag "reload:slow"])
+  | ["astatus", name], [tg, sc, gr] =>
+    let (σ', msgs) := step σ ["astatus", name] [tg, sc]
+    -- GET /alerts/groups reports the CURRENT verdict too, not the one of the group's last flush
+    let pg : List Msg :=
+      if gr = "grp=suppressed:1:1" ∨ gr = "grp=missing" then [] else
+        (match ((gr.splitOn "=").getD 1 "").splitOn ":" with
+         | [state, silOk, nInh] =>
+           (if nInh ≠ "0" then [] else [Msg.propfail "status_reports_a_real_inhibitor" "api-groups-status-stale"
+              s!"alert {name} role=tgt: GET /api/v2/alerts reports {tg}, GET /api/v2/alerts/groups reports it as {state} with no inhibiting alert"])
+           ++ (if silOk = "1" then [] else [Msg.propfail "mutes_eq_bruteforce" "api-groups-status-stale"
+              s!"alert {name} role=tgt: GET /api/v2/alerts/groups reports it as {state} without the silence that matches it"])
+         | _ => [])
+    (σ', msgs ++ expectEq "astatus.grp" "grp=suppressed:1:1" gr ++ pg)
   | ["astatus", name], [tg, sc] =>
     -- the status callback of the API (app/reloader.go): both muters are asked, each records its own verdict:
     -- silencedBy is the brute-force list of active matching silences (C02) whether or not the alert is also inhibited (C03)
